@@ -89,6 +89,14 @@ func (w *world) genGovTx(n *node) *genTx {
 	if e != nil {
 		return nil
 	}
+	// the same proposal bytes (same signer, values, window and clock instant) are decided once
+	if w.govSeen == nil {
+		w.govSeen = map[string]bool{}
+	}
+	if w.govSeen[string(bz)] {
+		return nil
+	}
+	w.govSeen[string(bz)] = true
 	approve := t.Chance(3, 4)
 	if approve {
 		if !w.approve(tx) {
